@@ -491,13 +491,19 @@ type shape struct {
 	keyCols   int
 	timeCol   int // position of ts among the key columns, -1 if the key has no time
 	allowsW   bool
+	// countV: the count column is COUNT(v) over the nullable v instead of COUNT(*), so every
+	// aggregate argument of a NULL-only group is NULL; the group must still be emitted, as
+	// (key, NULL, NULL)
+	countV bool
 }
 
 var shapes = map[string]shape{
-	"tk": {"tk", "SELECT ts, k, COUNT(*) AS c, SUM(v) AS s FROM m.t GROUP BY ts, k", 1, 2, 0, true},
-	"kt": {"kt", "SELECT k, ts, COUNT(*) AS c, SUM(v) AS s FROM m.t GROUP BY k, ts", 1, 2, 1, true},
-	"k":  {"k", "SELECT k, COUNT(*) AS c, SUM(v) AS s FROM m.t GROUP BY k", 1, 1, -1, false},
-	"k0": {"k0", "SELECT k, COUNT(*) AS c, SUM(v) AS s FROM m.t GROUP BY k", -1, 1, -1, false},
+	"tk":  {"tk", "SELECT ts, k, COUNT(*) AS c, SUM(v) AS s FROM m.t GROUP BY ts, k", 1, 2, 0, true, false},
+	"kt":  {"kt", "SELECT k, ts, COUNT(*) AS c, SUM(v) AS s FROM m.t GROUP BY k, ts", 1, 2, 1, true, false},
+	"k":   {"k", "SELECT k, COUNT(*) AS c, SUM(v) AS s FROM m.t GROUP BY k", 1, 1, -1, false, false},
+	"k0":  {"k0", "SELECT k, COUNT(*) AS c, SUM(v) AS s FROM m.t GROUP BY k", -1, 1, -1, false, false},
+	"k0v": {"k0v", "SELECT k, COUNT(v) AS c, SUM(v) AS s FROM m.t GROUP BY k", -1, 1, -1, false, true},
+	"tkv": {"tkv", "SELECT ts, k, COUNT(v) AS c, SUM(v) AS s FROM m.t GROUP BY ts, k", 1, 2, 0, true, true},
 }
 
 var tableFields = []physical.SchemaField{
@@ -623,7 +629,14 @@ func (s *sim) row(g *group) string {
 	if g.nn > 0 {
 		sum = octosql.NewInt(int64(g.sum))
 	}
-	vals = append(vals, octosql.NewInt(int64(g.count)), sum)
+	cnt := octosql.NewInt(int64(g.count))
+	if s.sh.countV {
+		cnt = octosql.NewNull()
+		if g.nn > 0 {
+			cnt = octosql.NewInt(int64(g.nn))
+		}
+	}
+	vals = append(vals, cnt, sum)
 	return nodeh.RowKey(vals)
 }
 
@@ -1397,8 +1410,14 @@ func partB(c *core.Ctx) {
 	var nullB [][]ev
 	enumerateB(4, nil, true, func(evs []ev) { nullB = append(nullB, evs) })
 	for _, sc := range list {
+		shn := sc.sh
+		// half of the pairs with COUNT(v) instead of COUNT(*): no aggregate argument of the
+		// NULL-only group is ever non-NULL
+		if v := map[string]string{"k0": "k0v", "tk": "tkv"}[shn]; v != "" && len(sc.cfg)%2 == 1 {
+			shn = v
+		}
 		for i, evs := range nullB {
-			cases = append(cases, caseB{id: fmt.Sprintf("b-exnull/%s/%s/%d", sc.sh, sc.cfg.Name(), i), cfg: sc.cfg, sh: shapes[sc.sh], evs: evs, kind: "exnull"})
+			cases = append(cases, caseB{id: fmt.Sprintf("b-exnull/%s/%s/%d", shn, sc.cfg.Name(), i), cfg: sc.cfg, sh: shapes[shn], evs: evs, kind: "exnull"})
 		}
 	}
 	// the same enumeration with k=b carrying its time in another Location (predicate of the
@@ -1418,7 +1437,7 @@ func partB(c *core.Ctx) {
 	// and refilled with NULL-valued records between two firings; a NULL-only group
 	for wi, w := range nullWitnesses() {
 		for _, cfg := range all {
-			for _, shn := range []string{"k0", "k", "tk"} {
+			for _, shn := range []string{"k0", "k", "tk", "k0v", "tkv"} {
 				if cfg.Has('W') && !shapes[shn].allowsW {
 					continue
 				}
@@ -1456,6 +1475,11 @@ func partB(c *core.Ctx) {
 		mixedLoc := rng.Intn(3) == 0
 		n := c.Pick(6+rng.Intn(20), 40)
 		nullMode := rng.Intn(3) % 2 // 1/3 of the scripts carry NULLs
+		if nullMode == 1 && i%2 == 0 {
+			if v := map[string]string{"k0": "k0v", "tk": "tkv"}[sh.name]; v != "" {
+				sh = shapes[v]
+			}
+		}
 		cs := caseB{id: fmt.Sprintf("b-rnd/%d", i), cfg: cfg, sh: sh, evs: randomScript(rng, n, mixedLoc, nullMode), kind: "rnd"}
 		if i%3 == 0 {
 			cs.alt = randomScript(rng, 4+rng.Intn(12), false, nullMode)
